@@ -4,6 +4,7 @@ package main
 
 import (
 	"flag"
+	"github.com/rs/zerolog"
 	"fmt"
 	"os"
 
@@ -25,6 +26,7 @@ var modes = map[string]mode{}
 
 func main() {
 	flag.Parse()
+	zerolog.SetGlobalLevel(zerolog.Disabled)
 	if flag.NArg() != 1 {
 		fmt.Fprintln(os.Stderr, "usage: verif-harness [flags] <property>")
 		os.Exit(2)
